@@ -168,7 +168,10 @@ class C05(Prop):
             'mutation == Spec apply, outcome == table prediction; wrong key / swapped / repeated / reordered signatures '
             'and wrong type byte must be rejected; VerifySignature on the signed spend; insert positions beyond the end, '
             'inapplicable edits (IndexError); multisig with different hash types per signature; a sweep over all 256 '
-            'hash-type bytes (base case + 5 edits each)')
+            'hash-type bytes (base case + 5 edits each); HISTORIES (c05.seq): shared transaction / script objects verified '
+            'again with other flags, another hash type of the same mode, at another index, after a verify that raised, '
+            'after in-place edits, flag-dependent verdicts (P2SH / CLEANSTACK / NULLDUMMY), one key object signing '
+            'several digests; > 256 inputs with signing index above 256')
 
     # ---- setup ----------------------------------------------------------------------------------
     def setup(self):
@@ -442,7 +445,10 @@ class C05(Prop):
         # (2b) multisig with DIFFERENT hash types on the signatures: every supplied signature must still verify, so an
         #      edit keeps the verdict only if it is uncommitted under every hash type involved
         if m >= 2:
-            mix = [ht] + [rng.choice([x for x in HT_DEFINED + HT_UNDEFINED if x != ht]) for _ in range(m - 1)]
+            # the second signature: same mode (`& 0x1f`) but other high bits — a digest shared between the signatures
+            # of one CHECKMULTISIG must be keyed on the whole byte; further ones: any other type
+            mix = [ht, ht ^ rng.choice([0x80, 0x20, 0x40, 0xc0, 0xe0])] + \
+                [rng.choice([x for x in HT_DEFINED + HT_UNDEFINED if x != ht]) for _ in range(m - 2)]
             msigs = [self.sign(keys[k], code, tx, idx, h) for k, h in zip(signers, mix)]
             mhts = ','.join(str(h) for h in mix)
             yield case('accept', mk_sig(msigs), '-', sub='/mixed', hts=mhts)
